@@ -359,8 +359,11 @@ class CellVariable:
         CellVariable
             Copy of the CellVariable.
         """
-        return CellVariable(self.domain, np.copy(self._value),
-                            deepcopy(self.BCs))
+        phi = CellVariable(self.domain, np.copy(self._value),
+                           deepcopy(self.BCs))
+        # keep the 'ghost cells need updating' state of the original
+        phi._value.modified = self._value.modified
+        return phi
     
     def plotprofile(self):
         """
